@@ -34,11 +34,18 @@ class SymStream:
         self.k = 0
         self.asked = []
         self.given = []
+        self.eof_reads = 0
         self.data = data     # None -> SizedPart results
 
     def read(self, n=-1):
         self.asked.append(n)
         rest = self.avail - self.pos
+        if rest <= 0:
+            # a reader that keeps asking after EOF does not terminate: make the hang a visible failure instead of a
+            # path that runs into the engine's per-path timeout (which would only be 'inconclusive')
+            self.eof_reads += 1
+            if self.eof_reads > 200:
+                raise RuntimeError("wsgi.input.read() called more than 200 times at EOF: the reader does not terminate (hang)")
         if n is None or n < 0:
             n = rest
         m = n if n < rest else rest
